@@ -8,6 +8,7 @@ import (
 	"testing"
 
 	"github.com/go-gts/gts"
+	"github.com/go-gts/gts/seqio"
 	"pgregory.net/rapid"
 )
 
@@ -18,6 +19,23 @@ type c02Case struct {
 	Embed    bool   `json:"embed"`
 	Host     []Feat `json:"host"`
 	Guest    []Feat `json:"guest"`
+	Carrier  int    `json:"carrier,omitempty"` // 0: gts.New values; 1: seqio.GenBank records; 2: the guest is a seqio.Fasta record (no table); 3: the guest is a GenBank record that holds a CONTIG line and no residues
+}
+
+// c02Carry builds the sequence value of the given kind.
+func c02Carry(kind int, name string, feats []Feat, p []byte) gts.Sequence {
+	switch kind {
+	case 1, 3:
+		f := seqio.GenBankFields{LocusName: name, Molecule: gts.DNA, Topology: gts.Linear, Division: "SYN", Date: seqio.Date{Year: 2020, Month: 1, Day: 2}, Definition: name, Accession: name, Version: name + ".1"}
+		if kind == 3 {
+			f.Contig = seqio.Contig{Accession: "CONTIG1.1", Region: gts.Segment{0, 500}}
+			f.Division = "CON"
+		}
+		return seqio.GenBank{Fields: f, Table: featsToGts(feats), Origin: seqio.NewOrigin(append([]byte(nil), p...))}
+	case 2:
+		return seqio.Fasta{Desc: name, Data: append([]byte(nil), p...)}
+	}
+	return gts.New(nil, featsToGts(feats), append([]byte(nil), p...))
 }
 
 // siteCheck, when set by the caller, judges the position of a site-only feature (the edit properties fix where a
@@ -122,9 +140,20 @@ func compareFeatureCirc(what string, got gts.Feature, want Feat, expDen []Elem, 
 }
 
 func c02Check(c c02Case) *Violation {
+	c.Carrier = mod(c.Carrier, 4)
+	if c.Carrier == 3 {
+		c.GuestLen = 0 // the record declares 500 bases and carries none
+	}
+	if c.Carrier >= 2 {
+		c.Guest = nil
+	}
 	hostBytes, guestBytes := idBytes(0, c.HostLen), idBytes(40, c.GuestLen)
-	host := gts.New(nil, featsToGts(c.Host), append([]byte(nil), hostBytes...))
-	guest := gts.New(nil, featsToGts(c.Guest), append([]byte(nil), guestBytes...))
+	hostKind := 0
+	if c.Carrier == 1 {
+		hostKind = 1
+	}
+	host := c02Carry(hostKind, "HOST", c.Host, hostBytes)
+	guest := c02Carry(c.Carrier, "GUEST", c.Guest, guestBytes)
 	var out gts.Sequence
 	name := "Insert"
 	if c.Embed {
@@ -238,7 +267,7 @@ func c02Check(c c02Case) *Violation {
 }
 
 func c02Classify(c c02Case) (bool, []string) {
-	labels := []string{}
+	labels := []string{"carrier:" + []string{"plain", "genbank", "fasta-guest", "contig-only-guest"}[mod(c.Carrier, 4)]}
 	if c.Embed {
 		labels = append(labels, "embed")
 	} else {
@@ -299,7 +328,7 @@ func c02Gen(t *rapid.T) c02Case {
 	L := drawLen(t, 0, 14, "L")
 	n := drawCount(t, 0, 5, 400, "n")
 	i := rapid.IntRange(0, L).Draw(t, "i")
-	c := c02Case{HostLen: L, GuestLen: n, Index: i, Embed: rapid.Bool().Draw(t, "embed")}
+	c := c02Case{HostLen: L, GuestLen: n, Index: i, Embed: rapid.Bool().Draw(t, "embed"), Carrier: rapid.SampledFrom([]int{0, 0, 0, 1, 1, 2, 3}).Draw(t, "carrier")}
 	hc := locCfg{L: L, Hot: hotAround(L, i, 0), MaxDepth: 3, MaxParts: scopeParts(4), Ambig: true, Sites: true}
 	gc := locCfg{L: n, Hot: []int{0, n}, MaxDepth: 2, MaxParts: 3, Ambig: true, Sites: true}
 	c.Host = genFeats(t, hc, drawCount(t, 0, 4, 9, "nhost"), "h", true)
